@@ -91,10 +91,11 @@ def own_writers(ck: Checker, an: Analysis, name: str, owner: str, attr: str, all
     for e in sites:
         if e.func.module.name.startswith("_fixture"):
             continue
-        if e.func.short in allowed:
-            ck.ok(rule, name, e.func.short, e.loc, f"{e.kind} of {owner}.{attr} by allowed {e.func.short}", construct=stmt_text(e.node))
+        who = [g.short for g in an.attributed(e.func)]       # a helper new to the inventory acts for the reviewed functions that call it
+        if all(w in allowed for w in who):
+            ck.ok(rule, name, e.func.short, e.loc, f"{e.kind} of {owner}.{attr} by allowed {', '.join(who)}", construct=stmt_text(e.node))
         else:
-            ck.fail(rule, name, e.func.short, e.loc, f"{e.func.short} writes {owner}.{attr}; allowed writers: {sorted(allowed)}", construct=stmt_text(e.node))
+            ck.fail(rule, name, e.func.short, e.loc, f"{e.func.short}{'' if who == [e.func.short] else ' (called from ' + ', '.join(who) + ')'} writes {owner}.{attr}; allowed writers: {sorted(allowed)}", construct=stmt_text(e.node))
     return sites
 
 
@@ -110,7 +111,7 @@ def own_readers(ck: Checker, an: Analysis, name: str, owner: str, attr: str, all
             sites.append(e)
     ck.floor(f"readers of {owner}.{attr}", len(sites), min_sites)
     for e in sites:
-        if e.func.short in allowed:
+        if all(g.short in allowed for g in an.attributed(e.func)):
             ck.ok(rule, name, e.func.short, e.loc, f"read of {owner}.{attr} by allowed {e.func.short}", construct=stmt_text(e.node))
         else:
             ck.fail(rule, name, e.func.short, e.loc, f"{e.func.short} reads {owner}.{attr}; allowed readers: {sorted(allowed)}", construct=stmt_text(e.node))
@@ -125,7 +126,7 @@ def own_callers(ck: Checker, an: Analysis, name: str, callee_short: str, allowed
     ck.floor(f"callers of {callee_short}", len(sites), min_sites)
     for f, n in sites:
         loc = f"{f.module.relpath}:{n.lineno}"
-        if f.short in allowed:
+        if all(g.short in allowed for g in an.attributed(f)):
             ck.ok(rule, name, f.short, loc, f"call of {callee_short} by allowed {f.short}", construct=stmt_text(n))
         else:
             reason = exempt(f, n) if exempt else None
